@@ -71,6 +71,7 @@ LayoutRecOK(r) ==
     /\ Trim(r.size) = MulSmall(r.n, r.tsize)          \* N * size_of::<T>() bytes
     /\ r.align = r.talign                             \* aligned as T
     /\ Trim(r.nsize) = Trim(r.size) /\ r.nalign = r.align   \* exactly the native array [T; N]
+    /\ Trim(r.len) = Trim(r.n)                              \* GenericArray::<T, N>::len() = N
 \* element i of a live array sits at byte offset i * size_of::<T>()
 ElemOffOK(r) == r.off = r.i * r.tsize /\ r.i < r.n
 
